@@ -235,8 +235,11 @@ def search(ctx, suspects, budget):
 
 
 def alone_fails(oracle, steps, corr, change):
-    core.fresh_impl()
-    return oracle(steps, corr, change) is not None
+    for _ in range(4):      # (order-dependent failures: the library orders sources by random ids)
+        core.fresh_impl()
+        if oracle(steps, corr, change) is not None:
+            return True
+    return False
 
 
 def session_why(oracle, sess):
@@ -263,6 +266,10 @@ def replay(ctx, v):
         why = session_why(oracle_program, v["case"])
         CL.reset_world()
         return Violation(ID, v["kind"], v["case"], why) if why else None
-    why = oracle_program(v["case"]["steps"], v["case"]["corr"], v["case"].get("change"))
+    why = None
+    for _ in range(6):      # (the library orders sources by random ids: an order-dependent failure shows in some runs only)
+        why = oracle_program(v["case"]["steps"], v["case"]["corr"], v["case"].get("change"))
+        if why:
+            break
     CL.reset_world()
     return Violation(ID, v["kind"], v["case"], why) if why else None
